@@ -134,7 +134,7 @@ func init() {
 		ID:          "C01",
 		Run:         RunC01,
 		Replay:      func(c *Ctx, entry, input string) { CheckC01(c, entry, input) },
-		Rule:        "cases = (entry, input) accepted without error, from the corpus under its entries and list entries, type seeds, generated sentences of grammar G under all renderers, the accepted fraction of token mutants / near misses (edits, truncations, moves, duplicated runs, inserted phrases, widened lists) and the operand matrix (every primary-expression form x operator context x field-name kind after a dot); each is unparsed, re-parsed with the same entry, compared modulo positions (validity must agree) and unparsed again (fixed point); distinct_nontrivial = distinct accepted (entry,input)",
+		Rule:        "cases = (entry, input) accepted without error, from the corpus under its entries and list entries, type seeds, generated sentences of grammar G under all renderers, the accepted fraction of token mutants / near misses (edits, truncations, moves, duplicated runs, inserted phrases, widened lists) the operand matrix (every primary-expression form x operator context x field-name kind after a dot), the value-slot matrix (94 expression forms x 51 slots that take any expression) and fold-alike names (a pseudo-keyword's spelling under Unicode case folding, back-quoted in its place); each is unparsed, re-parsed with the same entry, compared modulo positions (validity must agree) and unparsed again (fixed point); distinct_nontrivial = distinct accepted (entry,input)",
 		Assumptions: []string{"equality modulo positions is reflective over all exported fields; nil and empty slices are considered equal"},
 		Floors: func(m *Merged) []string {
 			if m.Counters["accepted"] < 1000 {
@@ -197,7 +197,7 @@ func init() {
 		ID:          "C02",
 		Run:         RunC02,
 		Replay:      func(c *Ctx, entry, input string) { CheckC02(c, entry, input) },
-		Rule:        "cases = sentences of grammar G (systematic each-choice set under 3 render policies + random derivations under random trivia / case / quoting), plus corpus files, accepted token mutants and near misses, the operand matrix and qualified special forms; expected = significant tokens of the input by the independent reference lexer in normal form (identifiers by name, literals by decoded value, numbers by spelling, keywords / punctuation by kind), observed = the same normal form of SQL(); only the documented canonicalisations are applied (noise words INNER/OUTER/INTO/ARE/DELETE's FROM, <> vs !=, >> split, optional commas, CREATE TABLE element grouping); distinct_nontrivial = distinct token-kind skeletons of accepted inputs with >= 5 tokens",
+		Rule:        "cases = sentences of grammar G (systematic each-choice set under 3 render policies + random derivations under random trivia / case / quoting), plus corpus files, accepted token mutants and near misses, the operand matrix, the value-slot matrix, fold-alike names and qualified special forms; expected = significant tokens of the input by the independent reference lexer in normal form (identifiers by name, literals by decoded value, numbers by spelling, keywords / punctuation by kind), observed = the same normal form of SQL(); only the documented canonicalisations are applied (noise words INNER/OUTER/INTO/ARE/DELETE's FROM, <> vs !=, >> split, optional commas, CREATE TABLE element grouping); distinct_nontrivial = distinct token-kind skeletons of accepted inputs with >= 5 tokens",
 		Assumptions: []string{"the reference lexer (not the parser, not memefish.Lexer) tokenizes both the input and SQL()", "pseudo-keywords compare case-insensitively, user identifiers exactly"},
 		Floors: func(m *Merged) []string {
 			if m.Counters["accepted"] < 1000 || m.Counters["g_systematic"] == 0 {
@@ -210,7 +210,7 @@ func init() {
 		ID:          "C08",
 		Run:         RunC08,
 		Replay:      func(c *Ctx, entry, input string) { CheckC08(c, entry, input) },
-		Rule:        "cases = sentences of grammar G written from the documentation (internal/gen/grammar.go, ddl.go; scope in internal/gen/SCOPE.md): the systematic each-choice set (every alternative of every production, every optional clause on/off, every list at lengths min/min+1/3) under upper-case/canonical, lower-case/tight and random-case/hostile-trivia renderings, plus random derivations; each must be accepted by its entry point and by ParseStatement with reflect.DeepEqual trees (positions included); random ';'-joined lists of 0-5 accepted sentences with and without trailing ';' through ParseStatements/ParseDDLs/ParseDMLs; size relation: a sentence (systematic set, corpus, hand-written hosts with parenthesised query operands) accepted with one of its lists widened by 13 elements must be accepted with it widened by 900; distinct_nontrivial = distinct token-kind skeletons",
+		Rule:        "cases = sentences of grammar G written from the documentation (internal/gen/grammar.go, ddl.go; scope in internal/gen/SCOPE.md): the systematic each-choice set (every alternative of every production, every optional clause on/off, every list at lengths min/min+1/3) under upper-case/canonical, lower-case/tight and random-case/hostile-trivia renderings, plus random derivations; each must be accepted by its entry point and by ParseStatement with reflect.DeepEqual trees (positions included); random ';'-joined lists of 0-5 accepted sentences with and without trailing ';' through ParseStatements/ParseDDLs/ParseDMLs; value-slot matrix (every expression form in every slot that takes any expression must be accepted); size relation: a sentence (systematic set, corpus, hand-written hosts with parenthesised query operands) accepted with one of its lists widened by 13 elements must be accepted with it widened by 900; distinct_nontrivial = distinct token-kind skeletons",
 		Assumptions: []string{"G is the reference grammar; constructs memefish does not implement are excluded and recorded in SCOPE.md", "documented forms that memefish rejects are fixed scope probes, listed in KNOWN_FINDINGS.txt by exact input"},
 		Floors: func(m *Merged) []string {
 			var f []string
@@ -259,7 +259,7 @@ func init() {
 		ID:          "C06",
 		Run:         RunC06,
 		Replay:      func(c *Ctx, entry, input string) { CheckC06(c, entry, input) },
-		Rule:        "cases = accepted inputs whose own round trip (C01) holds: corpus, type seeds, sentences of G (systematic set under 3 renderings + random), accepted token mutants and near misses (<= 1200 bytes), the operand matrix; for every node with a sane range: (a) if it sits in a slot whose static type is Expr / Type / QueryExpr / Statement / DDL / DML, input[Pos:End] is parsed on its own with the matching entry point and must give a tree equal to the node modulo positions; (b) input[:Pos]+' '+SQL()+' '+input[End:] must parse under the original entry point to a tree equal to the original; a node is reported only if all its descendants pass (root cause); distinct_nontrivial = distinct (entry,input)",
+		Rule:        "cases = accepted inputs whose own round trip (C01) holds: corpus, type seeds, sentences of G (systematic set under 3 renderings + random), accepted token mutants and near misses (<= 1200 bytes), the operand matrix, every corpus statement and systematic sentence as second element of a list; for every node with a sane range: (a) if it sits in a slot whose static type is Expr / Type / QueryExpr / Statement / DDL / DML, input[Pos:End] is parsed on its own with the matching entry point and must give a tree equal to the node modulo positions; (b) input[:Pos]+' '+SQL()+' '+input[End:] must parse under the original entry point to a tree equal to the original; a node is reported only if all its descendants pass (root cause); distinct_nontrivial = distinct (entry,input)",
 		Assumptions: []string{"the slot rule (static field type) implements the property's exclusions: single-identifier Path, field-name Ident, NamedType in SchemaType slots are never in an Expr/Type slot"},
 		Floors: func(m *Merged) []string {
 			if m.Counters["substring_parses"] == 0 || m.Counters["splices"] == 0 || m.SetLen("substring_parsed_types") < 40 {
